@@ -409,11 +409,11 @@ func TestVerifC12Send(t *testing.T) {
 
 	n := vN(40)
 	k := 0
-	for _, ver := range []int{1, 2, 0} {
-		for _, p := range pairs {
+	for vi, ver := range []int{1, 2, 0} {
+		for pi, p := range pairs {
 			for _, recv := range []int{-1, 0, 1, 2, 3, 4, 5, 6, 7} {
-				// quick tier: every pair without a received header, and a rotating received header
-				if recv >= 0 && !(vThorough() || (k+recv)%4 == 0) {
+				// quick tier: every pair without a received header, and a rotating third of the received headers
+				if recv >= 0 && !(vThorough() || (pi+vi+recv)%3 == 0) {
 					continue
 				}
 				if ver == 0 && recv >= 0 {
